@@ -877,8 +877,12 @@ impl<A: Zeroize + NewBytes + ResizableBytes + Lockable<A>> NewLockedFromSlice<A>
     fn from_slice_into_locked(
         src: &[u8],
     ) -> Result<Protected<Self, traits::ReadWrite, traits::Locked>, crate::error::Error> {
-        let mut res = Self::new_bytes().mlock()?;
-        res.resize(src.len(), 0);
+        // size the region first and lock it before the secret is copied in, so
+        // that a refused lock is reported as an error (resizing an already
+        // locked region has no way to report it)
+        let mut unlocked = Self::new_bytes();
+        unlocked.resize(src.len(), 0);
+        let mut res = unlocked.mlock()?;
         res.as_mut_slice().copy_from_slice(src);
         Ok(res)
     }
